@@ -274,6 +274,38 @@ def run(facts, tr, rep):
                "the latency-mode hedge is counted (one increment dominates the spawn) and `spawned + 1 < max_hedged_attempts` guards the branch" if ok else
                "the latency-mode hedge spawn is not counted against max_hedged_attempts")
     rep.floor("C12.latency-spawn-sites", len(lat_spawns), 1)
+    # ------------------------------------------------------------ EXHAUST: an attempt's error ends the hedging phase only when no further hedge can be started
+    # (all-attempts-failed is reported once the channel closes; leaving the race loop early closes it with attempts unstarted)
+    exhausted = []          # edges on which `spawned + 1 >= max_hedged_attempts` holds
+    for bb in range(g.n):
+        sw = g.switch(bb)
+        if sw is None or sw.kind != "bool" or not g.live(bb):
+            continue
+        cm = normalise_cmp(tr, peel(tr.expand(tr.operand(hb, sw.cond, (bb, len(g.stmts(bb)))), upvars=True, params=True)))
+        if cm and mentions_field(tr, cm[2], "max_hedged_attempts"):
+            if cm[0] == "Ge":
+                exhausted.append((bb, sw.variants["true"]))
+            elif cm[0] == "Lt":
+                exhausted.append((bb, sw.variants["false"]))
+    nex = 0
+    for sd in sender_drops:
+        for bb in range(g.n):
+            sw = g.switch(bb)
+            if sw is None or sw.kind != "enum" or not {"Ok", "Err"} <= set(sw.variants) or not g.live(bb) or not g.in_cycle(bb):
+                continue
+            if sd.bb not in g.reach([bb], kinds=(N,)) or bb in g.reach([sd.bb], kinds=(N,)):
+                continue        # a result match of the hedging phase: before the function's own sender is dropped
+            nex += 1
+            # ... "left" = reaching the end of the phase without another round of the race (the awaits of the loop)
+            rounds = [a.into_bb for a in g.awaits() if a.into_bb is not None and g.in_cycle(a.into_bb) and sd.bb in g.reach([a.into_bb], kinds=(N,))
+                      and a.into_bb not in g.reach([sd.bb], kinds=(N,))]
+            r_ = g.reach([sw.variants["Err"]], kinds=(N,), avoid_edges=exhausted, avoid_nodes=rounds)
+            okx = sd.bb not in r_
+            rep.ob("C12.EXHAUST", skey(hb, "attempt-error#%d" % (nex - 1)), okx, g.where(bb),
+                   "after an attempt's error the hedging phase is left only when no further hedge can be started (spawned + 1 >= max_hedged_attempts)" if okx else
+                   "after an attempt's error the hedging phase can be left although further hedges could be started: the call then reports "
+                   "all-attempts-failed (or waits for a slow attempt) without having started every attempt it could")
+    rep.floor("C12.hedging-phase-result-matches", nex, 1)
     # ------------------------------------------------------------ DELAY-ORIGIN: the hedge timer is only armed with configured delays
     sleeps = [c for c in g.calls() if c.def_ and c.def_.startswith("tokio::time::sleep::sleep")]
     rep.floor("C12.sleep-sites", len(sleeps) + len([c for c in g.calls() if c.name == "reset" and "tokio::time::sleep::Sleep" in (c.def_ or c.path or "")]), 2)
